@@ -72,7 +72,7 @@ class Agg:
         self.samples = []
         self.knob_cov = collections.Counter()
 
-    def add_world(self, w, tag=""):
+    def add_world(self, w, tag="", count_only=False):
         rec = w.record
         s = w.sched
         self.n += 1
@@ -119,6 +119,8 @@ class Agg:
             self.nontrivial.add(hist_sig & 0xFFFFFFFFFFFF)
         for st in getattr(w, "abstract_states", ()):
             self.states.add(st)
+        if count_only:
+            return
         if w.harness:
             self.harness.append({"seed": rec["seed"], "tag": tag, "reason": w.harness})
         elif w.violation:
@@ -169,7 +171,8 @@ def _task(args):
                 w = run_record(rec)
                 agg.add_world(w)
                 if opts.get("modes") and not w.violation and not w.harness:
-                    v = mode_equivalence(rec, w)
+                    v, wb = mode_equivalence(rec, w)
+                    agg.add_world(wb, count_only=True)
                     if v is not None:
                         agg.violations.append(v)
         elif kind == "records":
@@ -192,24 +195,26 @@ def _task(args):
         faulthandler.cancel_dump_traceback_later()
 
 
-def mode_equivalence(rec, w_first):
-    """18h: the same history with the other download mode must give the same results."""
+def mode_equivalence(rec, w_first, keep_log=False):
+    """18h: the same history with the other download mode must give the same results.
+    Returns (violation dict or None, world of the second run)."""
     rec2 = json.loads(json.dumps(rec))
     rec2["knobs"]["parallel"] = not rec["knobs"].get("parallel", False)
-    b = run_record(rec2)
+    rec2.pop("check", None)
+    b = run_record(rec2, keep_log=keep_log)
     a = w_first
     if b.harness:
-        return None
+        return None, b
     if b.violation:
-        return {"seed": rec["seed"], "tag": "modes", "clause": b.violation[1], "msg": b.violation[2],
-                "op": b.violation[3], "record": rec2}
+        return {"seed": rec["seed"], "tag": "", "clause": b.violation[1], "msg": b.violation[2],
+                "op": b.violation[3], "record": rec2}, b
     for (ida, ra), (idb, rb) in zip(a.results, b.results):
         if ida != idb or ra != rb:
             return {"seed": rec["seed"], "tag": "modes", "clause": "18h",
                     "msg": "operation %s gives %r with parallel=%s and %r with parallel=%s"
                            % (ida, ra, rec["knobs"].get("parallel"), rb, rec2["knobs"]["parallel"]),
-                    "op": ida, "record": rec}
-    return None
+                    "op": ida, "record": rec}, b
+    return None, b
 
 
 def run_parallel(tasks, workers):
